@@ -9,8 +9,9 @@ NEW = {
     "gfa2": {"S": "S\t{}\t5\t*", "E": "E\t{}\tA-\tC-\t0\t2\t0\t2\t*", "G": "G\t{}\tA-\tC-\t3\t*", "O": "O\t{}\tA+", "U": "U\t{}\tA"},
 }
 BASES = {"gfa1": [["sA", "sB", "sC"], ["sA", "sB", "sC", "l1", "l10", "c2", "p1"], ["sA", "sB", "sC", "l1", "l7", "p2", "p4"],
-                  ["sA", "sB", "sC", "l10", "raw:P\tpv\tC+,A-\t*"]],            # a path read before its link: a virtual link C+ A- exists
-         "gfa2": [["sA", "sB", "sC"], ["sA", "sB", "sC", "e1", "g1", "o1", "u1"], ["sA", "sB", "sC", "e1", "e6", "ua", "ub", "oa", "ob", "u4", "u1"]]}
+                  ["sA", "sB", "sC", "l10", "raw:P\tpv\tC+,A-\t*"],             # a path read before its link: a virtual link C+ A- exists
+                  ["sA", "raw:L\tA\t+\t12\t+\t*", "raw:S\t3\t*"]],               # a segment known only by a mention (placeholder) with an integer-looking name
+         "gfa2": [["sA", "sB", "sC"], ["sA", "raw:E\t*\tA+\t12-\t0\t2\t0\t2\t*", "raw:S\t3\t8\t*"], ["sA", "sB", "sC", "e1", "g1", "o1", "u1"], ["sA", "sB", "sC", "e1", "e6", "ua", "ub", "oa", "ob", "u4", "u1"]]}
 
 
 def doc_lines(version, ids):
@@ -18,8 +19,23 @@ def doc_lines(version, ids):
     return universe.lines_of(version, universe.closure(cat, [i for i in ids if not i.startswith("raw:")])) + [i[4:] for i in ids if i.startswith("raw:")]
 
 
+class Mentioned:
+    """an identifier no line defines yet, but which some line mentions where a segment is expected: it is in use, as a segment"""
+    rt = "S"
+    virtual = True
+
+    def __init__(self, name):
+        self.name = name
+
+    def text(self):
+        return "<segment %s, known by mention only>" % self.name
+
+
 def in_use(tm, name):
-    return tm.find(name)
+    r = tm.find(name)
+    if r is None and any(m == name and role == "seg" for x in tm.recs for m, role in tm.mentions(x)):
+        return Mentioned(name)
+    return r
 
 
 def check(case):
@@ -55,7 +71,7 @@ def check(case):
         except gfapy.Error as e:
             fail("add-raises-%s" % type(e).__name__, "%s: %s" % (text, harness.short(e, 150)))
             ok = None
-        if ok is True and prev is not None and not (prev.rt == rt and rt in ("O", "U")):
+        if ok is True and prev is not None and not (prev.rt == rt and rt in ("O", "U")) and not (getattr(prev, "virtual", False) and rt == "S"):
             fail("duplicate-accepted:%s-over-%s" % (rt, prev.rt), "added %r although %r is carried by %r" % (text, name, prev.text()))
         if ok is False and prev is None:
             fail("fresh-identifier-refused:%s" % rt, text)
@@ -75,6 +91,8 @@ def check(case):
             ok = None
             if prev is None and not (new == "*" and tm.find(old).rt in ("S", "P", "L", "C")):
                 fail("rename-raises-%s" % type(e).__name__, "%s -> %s: %s" % (old, new, harness.short(e, 150)))
+        if getattr(prev, "virtual", False) and tm.find(old).rt == "S":
+            prev = None if ok else prev          # a segment renamed onto an identifier known only by mention: taking it over or refusing are both admissible
         if ok is True and prev is not None and prev is not tm.find(old) and not (prev.rt in ("O", "U") and prev.rt == tm.find(old).rt):
             fail("rename-onto-identifier-in-use:%s-over-%s" % (tm.find(old).rt, prev.rt), "%s -> %s" % (old, new))
         if ok is False and prev is None:
